@@ -29,3 +29,18 @@ PLAN["C16"] = {
          {"flavour": "miri", "shards": 16, "budget": 600, "timeout": 2400}],
     ),
 }
+
+PLAN["C12"] = {
+    "rule": "public clarabel::qdldl API: every triu pattern for n<=4 x all n! orderings x all 2^n D-sign vectors (exact small-integer data) plus float data "
+            "with regularisation off and AMD ordering; planted wrong-sign/zero/tiny pivots; exact zero pivots; all vectors in {0..n}^n (n<=4) as "
+            "candidate permutations; random banded/arrow/block/KKT matrices (n<=60 quick, 120 thorough); update/scale/offset/refactor histories. "
+            "Oracles: double-double dense reference LDL' with the same regularisation rule (decisions inside the f64 rounding band are don't-care), "
+            "reconstruction |PAP'-LDL'|<=c n u |L||D||L'|, solve residual, inertia=#D>0=#positive eigenvalues, regularised pivots = delta*sign exactly and "
+            "counted, refactor bit-identical to a fresh factorisation, error contract (Err never Ok). distinct = distinct (n,pattern) / vector / matrix hash",
+    "assumptions": BASE_ASSUME + ["forward comparison of individual pivots is made only under bounded growth (accumulated mag/|D| <= 1e8)"],
+    "runs": runs(
+        [dict(MON16, budget=120), {"flavour": "miri", "shards": 16, "budget": 300, "timeout": 1200}],
+        [dict(MON16, budget=600), {"flavour": "asan", "shards": 16, "scale": 0.5, "budget": 600},
+         {"flavour": "miri", "shards": 16, "budget": 900, "timeout": 3000}],
+    ),
+}
